@@ -43,7 +43,19 @@ class OnlyBase(BaseException):
     pass
 
 
-KINDS = {'ret': None, 'Base': Base, 'Sub': Sub, 'Other': Other, 'OnlyBase': OnlyBase,
+class Falsy(Sub):
+    """An exception whose instances are falsy (a container of detail records that has none)."""
+
+    def __len__(self):
+        return 0
+
+
+class FalsyBool(Other):
+    def __bool__(self):
+        return False
+
+
+KINDS = {'ret': None, 'Base': Base, 'Sub': Sub, 'Other': Other, 'OnlyBase': OnlyBase, 'Falsy': Falsy, 'FalsyBool': FalsyBool,
          'Cancelled': aio.CancelledError}
 ONLY = {'default': None, 'Base': Base, 'Sub': Sub, 'Other': Other, 'Exception': Exception,
         'BaseException': BaseException, 'OnlyBase': OnlyBase, 'Cancelled': aio.CancelledError}
@@ -51,7 +63,7 @@ ONLY = {'default': None, 'Base': Base, 'Sub': Sub, 'Other': Other, 'Exception': 
 
 def strategy(tier):
     aw = st.fixed_dictionaries({
-        'outcome': st.sampled_from(['ret', 'Base', 'Base', 'Sub', 'Sub', 'Other', 'OnlyBase', 'Cancelled']),
+        'outcome': st.sampled_from(['ret', 'Base', 'Base', 'Sub', 'Sub', 'Other', 'OnlyBase', 'Cancelled', 'Falsy', 'FalsyBool']),
         'delay': st.integers(0, 5),
         'how': st.sampled_from(['coro', 'task', 'fut']),
     })
